@@ -10,7 +10,7 @@ miss=0
 for s in $ids; do
   prop=${s%%-*}
   git -C $wt checkout -q -- . && git -C $wt clean -fdq
-  if ! git -C $wt apply seeded/$s/patch.diff; then echo "$s: patch does not apply"; miss=$((miss+1)); continue; fi
+  if ! git -C $wt apply "$PWD/seeded/$s/patch.diff"; then echo "$s: patch does not apply"; miss=$((miss+1)); continue; fi
   o=$(PGV_REPO=$wt PGV_OUT_DIR=/tmp/pgv-seeded-out ./check $prop --tier ${TIER:-quick} 2>&1); rc=$?
   sig=$(echo "$o" | grep -E "violation \[" | head -2 | cut -c1-160 | tr '\n' ' ')
   echo "$s rc=$rc $sig"
